@@ -6,6 +6,8 @@ import (
 	"errors"
 	"fmt"
 	"net"
+	"net/http"
+	"net/http/httptest"
 	"net/netip"
 	"sort"
 	"strings"
@@ -133,6 +135,11 @@ func (p *epochPool) Alloc(sub string) (netip.Prefix, error) {
 func (p *epochPool) Release(sub string) error { return p.a.Release(bg, sub) }
 func (p *epochPool) Renew(sub string) error   { return p.a.Renew(bg, sub) }
 func (p *epochPool) AdvanceEpoch()            { p.a.AdvanceEpoch() }
+
+// Move places sub on v the way a replayed store record / remote change does.
+func (p *epochPool) Move(sub string, v netip.Prefix) error {
+	return p.a.SetAllocation(sub, net.IP(v.Addr().AsSlice()))
+}
 func (p *epochPool) Lookup(sub string) (netip.Prefix, bool, bool) {
 	ip := p.a.Lookup(sub)
 	return p.pfx(ip), ip != nil, true
@@ -388,7 +395,7 @@ func (p *distPool) StoreHas(sub string) (netip.Prefix, bool) {
 
 // Move delivers a remote announcement "sub now has v" through the store's watch callback.
 func (p *distPool) Move(sub string, v netip.Prefix) error {
-	rec := allocator.DistributedAllocation{PoolID: p.cfg.PoolID, SubscriberID: sub, Prefix: v.String()}
+	rec := allocator.DistributedAllocation{PoolID: p.cfg.PoolID, SubscriberID: sub, Prefix: v.String(), Epoch: p.a.GetCurrentEpoch()}
 	b, _ := json.Marshal(rec)
 	key := fmt.Sprintf("/allocation/%s/%s", p.cfg.PoolID, sub)
 	// the announcing node wrote the record to the shared store before peers hear of it
@@ -424,6 +431,7 @@ func (p *distLeasePool) List() (map[string]netip.Prefix, bool)        { return n
 func (p *distLeasePool) Stats() (int, int, bool)                      { return p.in.Stats() }
 func (p *distLeasePool) FailNext(n int)                               { p.in.FailNext(n) }
 func (p *distLeasePool) StoreHas(sub string) (netip.Prefix, bool)     { return p.in.StoreHas(sub) }
+func (p *distLeasePool) Move(sub string, v netip.Prefix) error        { return p.in.Move(sub, v) }
 
 // Reload = restart from the backing store (session mode only participates in C01/C05 histories;
 // lease-mode reload is judged in C12 where the epoch of the restarted node is modelled).
@@ -1001,13 +1009,139 @@ func Peer(cidr, gw string) *Spec {
 		}}
 }
 
+// ---------------------------------------------------------------- pool.PeerPool cluster (forwarded paths)
+
+// peerCluster is three PeerPool nodes, each with its own subnet, joined by an in-memory HTTP transport that
+// serves each node's registered handlers. Calls enter through a rotating front node, so most of them are
+// forwarded to the owner (forwardAllocation / forwardRelease / the owner's handlers).
+type peerCluster struct {
+	nodes []*pool.PeerPool
+	names []string
+	n     int
+}
+
+type memTransport struct{ mux map[string]*http.ServeMux }
+
+func (m *memTransport) RoundTrip(r *http.Request) (*http.Response, error) {
+	h, ok := m.mux[r.URL.Host]
+	if !ok {
+		return nil, fmt.Errorf("no such peer %q", r.URL.Host)
+	}
+	rec := httptest.NewRecorder()
+	h.ServeHTTP(rec, r)
+	return rec.Result(), nil
+}
+
+func (p *peerCluster) front() *pool.PeerPool { p.n++; return p.nodes[p.n%len(p.nodes)] }
+func (p *peerCluster) Alloc(sub string) (netip.Prefix, error) {
+	r, err := p.front().Allocate(bg, sub, nil)
+	if err != nil {
+		return netip.Prefix{}, exh(err)
+	}
+	a, err := netip.ParseAddr(r.IP)
+	if err != nil {
+		return netip.Prefix{}, err
+	}
+	return netip.PrefixFrom(a, 32), nil
+}
+func (p *peerCluster) Release(sub string) error { return p.front().Release(bg, sub) }
+func (p *peerCluster) owner(sub string) *pool.PeerPool {
+	o := p.nodes[0].GetOwner(sub)
+	for i, n := range p.names {
+		if n == o {
+			return p.nodes[i]
+		}
+	}
+	return nil
+}
+func (p *peerCluster) Lookup(sub string) (netip.Prefix, bool, bool) {
+	o := p.owner(sub)
+	if o == nil {
+		return netip.Prefix{}, false, true
+	}
+	r, ok := o.Get(sub)
+	if !ok {
+		return netip.Prefix{}, false, true
+	}
+	a, _ := netip.ParseAddr(r.IP)
+	return netip.PrefixFrom(a, 32), true, true
+}
+func (p *peerCluster) Reverse(v netip.Prefix) (string, bool, bool) { return "", false, false }
+func (p *peerCluster) List() (map[string]netip.Prefix, bool)       { return nil, false }
+func (p *peerCluster) Stats() (int, int, bool) {
+	a, t := 0, 0
+	for _, n := range p.nodes {
+		s := n.Stats()
+		a += s.Allocated
+		t += s.Total
+	}
+	return a, t, true
+}
+
+// PeerCluster returns the three-node spec; bits is the prefix length of each node's own subnet.
+// Exhaustion is per owner (a subscriber can only be served from its owner's subnet), so the usable count
+// of the whole is not a bound the engine can use: Usable is -1 and conservation is judged by Stats and lookups.
+func PeerCluster(base string, bits int) *Spec {
+	r := netip.MustParsePrefix(base).Masked()
+	names := []string{"n1", "n2", "n3"}
+	subs := Units(netip.PrefixFrom(r.Addr(), bits-2), bits)
+	var excl []netip.Addr
+	for _, sn := range subs[:3] {
+		u := Units(sn, 32)
+		excl = append(excl, u[0].Addr(), u[1].Addr(), u[len(u)-1].Addr())
+	}
+	return &Spec{Impl: "pool.PeerPool/cluster", Geom: fmt.Sprintf("3 nodes x /%d from %s", bits, r.Addr()), Range: netip.PrefixFrom(r.Addr(), bits-2), UnitBits: 32, Usable: -1, Excluded: excl, Concurrent: true,
+		New: func() (Pool, error) {
+			tr := &memTransport{mux: map[string]*http.ServeMux{}}
+			pc := &peerCluster{names: names}
+			for i, nm := range names {
+				u := Units(subs[i], 32)
+				n, err := pool.NewPeerPool(pool.PeerPoolConfig{NodeID: nm, Peers: names, Network: subs[i].String(), Gateway: u[1].Addr().String(), Logger: zap.NewNop()})
+				if err != nil {
+					return nil, err
+				}
+				cl := &http.Client{Transport: tr}
+				n.VerifC17SetHTTPClients(cl, cl)
+				mux := http.NewServeMux()
+				n.RegisterHandlers(mux)
+				tr.mux[nm] = mux
+				pc.nodes = append(pc.nodes, n)
+			}
+			return pc, nil
+		}}
+}
+
 // ---------------------------------------------------------------- nexus.Client hash-based allocation
 
 type nexusPool struct {
-	c *nexus.Client
+	c     *nexus.Client
+	known map[string]bool
+	nstat int
+}
+
+// AllocSpecific provisions sub statically on v the way an operator does: the subscriber record is written
+// with the address filled in (and, every other time, without a pool id: the pool is then implied by the
+// default). A careful operator does not provision an address somebody holds, nor a subscriber that has one.
+func (p *nexusPool) AllocSpecific(sub string, v netip.Prefix) error {
+	if _, ok := p.c.LookupSubscriberIP(sub); ok {
+		return fmt.Errorf("subscriber has an address")
+	}
+	for k := range p.known {
+		if a, ok := p.c.LookupSubscriberIP(k); ok && a == v.Addr().String() {
+			return fmt.Errorf("address is held")
+		}
+	}
+	p.known[sub] = true
+	p.nstat++
+	rec := &nexus.Subscriber{ID: sub, IPv4Addr: v.Addr().String(), State: "active"}
+	if p.nstat%2 == 0 {
+		rec.IPv4Pool = "p1"
+	}
+	return p.c.SaveSubscriber(bg, rec)
 }
 
 func (p *nexusPool) ensure(sub string) {
+	p.known[sub] = true
 	if _, ok := p.c.GetSubscriber(sub); ok {
 		return
 	}
@@ -1067,7 +1201,7 @@ func Nexus(cidr string) *Spec {
 			if err := c.Start(); err != nil {
 				return nil, err
 			}
-			return &nexusPool{c: c}, nil
+			return &nexusPool{c: c, known: map[string]bool{}}, nil
 		}}
 }
 
